@@ -259,6 +259,8 @@ class Obj(T):
                 o.fields[k] = PList(ty.seq.fresh('%s_%s' % (name, k)))
             elif isinstance(ty, Obj):
                 o.fields[k] = ty.fresh('%s_%s' % (name, k))
+            elif callable(getattr(ty, 'make', None)):
+                o.fields[k] = ty.make('%s_%s' % (name, k))
             else:
                 o.fields[k] = ty.fresh('%s_%s' % (name, k))
         return o
